@@ -158,6 +158,8 @@ func (s *Store) keyFor(gvk schema.GroupVersionKind, ns, name string) (Key, KindI
 	}
 	if !ki.Namespaced {
 		ns = ""
+	} else if ns == "" {
+		return Key{gvk.Group, gvk.Kind, ns, name}, ki, apierrors.NewBadRequest("an empty namespace may not be set when a resource name is provided")
 	}
 	return Key{gvk.Group, gvk.Kind, ns, name}, ki, nil
 }
